@@ -190,3 +190,39 @@ func vhEqStrs(a, b []string) bool {
 	}
 	return r
 }
+
+// VH_C12_malformed: a field with an empty qualifier, sub-qualifier or value — a leading or
+// trailing colon, or a run of colons — is not in the documented language and is rejected
+// with an error, whatever valid qualifier and value surround it.
+func VH_C12_malformed() {
+	type kv struct{ q, v string }
+	items := []kv{{"status", "open"}, {"author", "rene"}, {"label", "bug"}, {"title", "word"}, {"no", "label"}, {"sort", "id-asc"}, {"metadata", "key:value"}}
+	it := items[rt.Choose(len(items))]
+	seps := 1 + rt.Choose(3) // 1 = well formed
+	lead := rt.Choose(2) == 1
+	trail := rt.Choose(2) == 1
+	in := it.q
+	for k := 0; k < seps; k++ {
+		in += ":"
+	}
+	in += it.v
+	if lead {
+		in = ":" + in
+	}
+	if trail {
+		in += ":"
+	}
+	if rt.Choose(2) == 1 {
+		in = "word " + in + "  other" // next to other fields
+	}
+	var err error
+	panicked, _ := rt.Try(func() { _, err = Parse(in) })
+	rt.Assert(!panicked, "parse-no-panic")
+	if seps == 1 && !lead && !trail {
+		rt.Assert(err == nil, "well-formed-field-accepted")
+		rt.Cover("well-formed")
+	} else {
+		rt.Assert(err != nil, "empty-qualifier-or-value-rejected")
+		rt.Cover("malformed")
+	}
+}
